@@ -46,10 +46,11 @@ def is_ps_hazard_char(c):
 
 def offending_from_nfkd(source, offending):
     """True iff every offending output character occurs in the NFKD decomposition of a source
-    character that lies outside printable ASCII 33..126 (i.e. one that had to be 'reduced')."""
+    character that had to be reduced (lies outside printable ASCII 33..126 and is not the plain
+    blank, which is removed up front) and whose decomposition contains a forbidden character."""
     pool = set()
     for c in source:
-        if not (33 <= ord(c) <= 126):
+        if is_ps_hazard_char(c):
             pool.update(unicodedata.normalize("NFKD", c))
     return bool(offending) and all(o in pool for o in offending)
 
